@@ -253,6 +253,12 @@ func (b *Builder) V1Form(renter, host *Actor, startDelta, endDelta uint64, withD
 	fc.ValidProofOutputs = []types.SiacoinOutput{{Address: renter.Addr, Value: rv}, {Address: host.Addr, Value: hv}}
 	missedHost := hv.Div64(3)
 	fc.MissedProofOutputs = []types.SiacoinOutput{{Address: renter.Addr, Value: rv}, {Address: host.Addr, Value: missedHost}, {Address: types.VoidAddress, Value: hv.Sub(missedHost)}}
+	// nothing ties the missed outputs to the addresses of the valid ones
+	if b.Rng.IntN(4) == 0 {
+		fc.MissedProofOutputs[0].Address = b.randActor().Addr
+		fc.MissedProofOutputs[1].Address = b.randActor().Addr
+		b.Kinds = append(b.Kinds, "v1-form-missed-addresses-differ")
+	}
 	fee := b.fee()
 	txn := types.Transaction{FileContracts: []types.FileContract{fc}, MinerFees: []types.Currency{fee}}
 	if !b.fundV1(&txn, renter, payout.Add(fee), 0.2) {
